@@ -1,4 +1,70 @@
-(* placeholder *)
-From GR Require Import Base Resp.
-Theorem C05_placeholder : True. Proof. exact I. Qed.
-Print Assumptions C05_placeholder.
+(* C05 — commands reach the handler with exactly the arguments the client sent.  Property theorems only.
+   `Grammar.req` is a typed grammar of the command surface that maps onto ONE handler operation (39 constructors
+   over 38 command names), written independently of the executors: `valid` says what a well-formed request is,
+   `print` how a client writes it (any letter case for option words, any accepted numeral), `expect` which handler
+   call it denotes.  Everything is for an ARBITRARY application handler. *)
+From Coq Require Import String.
+From GR Require Import Base Resp Handler Exec Conn Grammar GrammarFacts.
+
+Section C05.
+  Variable hstate : Type.
+  Variable handle : hstate -> Z -> hcall -> hstate * hresult.
+  Variable regexp_src : bytes -> bytes.
+  Variable fw_text : bytes -> args -> bytes.
+
+  (* (1) decode ∘ print = id: the executor registered for the command, run on the printed arguments of a valid
+     request, is exactly ONE handler call with exactly the decoded arguments — strings byte for byte, integers,
+     floats (as exact values), option flags, exclusive-range markers, durations and timestamps, list order kept —
+     whose result is passed through *)
+  Theorem C05_decode_print : forall r c s, valid r = true ->
+    exec_of hstate handle regexp_src r c (print r) s = pass hstate handle c (expect regexp_src r) s.
+  Proof. exact (decode_print hstate handle regexp_src). Qed.
+
+  (* (2) through the dispatcher, with ANY letter case of the command name, on the connection it arrived on
+     (database of that connection), leaving connection and server state untouched *)
+  Theorem C05_direct_command : forall (w : world hstate) cmd r,
+    cs_auth (w_cs _ w) = true -> upper cmd = bytes_of_string (name_of r) -> valid r = true ->
+    execute_command hstate handle regexp_src w cmd (print r) =
+    let (res, s') := call hstate handle (w_cs _ w) (expect regexp_src r)
+                          (emit hstate (EvSpanStart (bytes_of_string (name_of r))) (w_est _ w)) in
+    Ok (x_of res, {| w_cs := w_cs _ w; w_ss := w_ss _ w; w_est := emit hstate EvSpanFinish s' |}).
+  Proof. exact (direct_command hstate handle regexp_src). Qed.
+
+  (* (3) unknown command: an error result and not a single event (no handler call) *)
+  Theorem C05_unknown_command : forall (w : world hstate) cmd a,
+    is_sys (upper cmd) = false -> lookup_cmd hstate (upper cmd) (user_table hstate handle regexp_src) = None ->
+    existsb (bytes_eqb (upper cmd)) (ss_app (w_ss _ w)) = false ->
+    execute_command hstate handle regexp_src w cmd a = Ok (x_fw, w).
+  Proof. exact (unknown_command hstate handle regexp_src). Qed.
+
+  (* (4) executors registered by the application are dispatched the same way, for any casing of the name *)
+  Theorem C05_app_command : forall (w : world hstate) cmd a,
+    cs_auth (w_cs _ w) = true -> is_sys (upper cmd) = false ->
+    lookup_cmd hstate (upper cmd) (user_table hstate handle regexp_src) = None ->
+    existsb (bytes_eqb (upper cmd)) (ss_app (w_ss _ w)) = true ->
+    execute_command hstate handle regexp_src w cmd a =
+    Ok (x_ok (app_reply), {| w_cs := w_cs _ w; w_ss := w_ss _ w;
+                             w_est := emit hstate EvSpanFinish (emit hstate (EvApp (upper cmd) a) (emit hstate (EvSpanStart (upper cmd)) (w_est _ w))) |}).
+  Proof. exact (app_command hstate handle regexp_src). Qed.
+
+  (* (5) what the handler returns is what the client receives *)
+  Theorem C05_reply_passthrough : forall req res m,
+    hr_err res = None -> hr_msg res = Some m -> reply_of fw_text req (x_of res) = m.
+  Proof. exact (reply_passthrough fw_text). Qed.
+End C05.
+Print Assumptions C05_decode_print.
+Print Assumptions C05_direct_command.
+Print Assumptions C05_unknown_command.
+Print Assumptions C05_app_command.
+Print Assumptions C05_reply_passthrough.
+
+(* non-vacuity: SET with options in mixed case and a non-canonical numeral; ZRANGE ... BYSCORE with an exclusive bound *)
+Example C05_ex1 :
+  let r := QSet (B"k") (B"v") [SwEX {| w_txt := B"eX"; w_kw := "EX" |} {| it_txt := B"+010"; it_val := 10 |}; SwNX {| w_txt := B"nx"; w_kw := "NX" |}] in
+  valid r = true /\ print r = map bulk [B"k"; B"v"; B"eX"; B"+010"; B"nx"] /\
+  expect (fun p => p) r = HSet (B"k") (B"v") {| so_ex := 10000000000; so_px := 0; so_exat := None; so_pxat := None; so_nx := true; so_xx := false; so_keepttl := false; so_get := false |}.
+Proof. vm_compute. auto. Qed.
+Example C05_ex2 :
+  let t s q := {| rs_tok := {| ft_txt := s; ft_val := FNum q |}; rs_ex := true |} in
+  valid (QZRangeScore (B"z") (t (B"1.5") (QArith_base.Qmake 3 2)) (t (B"7") (QArith_base.Qmake 7 1)) [ZwBYSCORE {| w_txt := B"byscore"; w_kw := "BYSCORE" |}]) = true.
+Proof. vm_compute. reflexivity. Qed.
